@@ -455,6 +455,12 @@ class Stream(APIRegisterMixin):
 
         result = []
         for downstream in list(self.downstreams):
+            if downstream not in self.downstreams:
+                # detached (disconnect / destroy from inside a consumer callback) while this
+                # element was being handed out: the edge no longer exists; give back the
+                # reference that was retained for it
+                self._release_refs(metadata)
+                continue
             r = downstream.update(x, who=self, metadata=metadata)
 
             if type(r) is list:
